@@ -351,8 +351,15 @@ func (c *Ctx) clearTransfer(in ssa.Instruction, st bool, ro *atpRoles, memo map[
 		if killOnDecode && strings.HasSuffix(core.StaticCalleeName(&call.Call), "cbor/v2.Decoder).Decode") {
 			return false
 		}
+		// every function the call may run clears the flag on all its ways out
 		cs := c.M.Callees(&call.Call)
-		if len(cs) == 1 && c.clearSummary(cs[0], ro, memo, depth+1) == "all" {
+		allClear := len(cs) > 0
+		for _, callee := range cs {
+			if c.clearSummary(callee, ro, memo, depth+1) != "all" {
+				allClear = false
+			}
+		}
+		if allClear {
 			return true
 		}
 	}
@@ -382,7 +389,15 @@ func (c *Ctx) clearFlow(fn *ssa.Function, ro *atpRoles, memo map[*ssa.Function]s
 					if ifi, ok := p.Instrs[len(p.Instrs)-1].(*ssa.If); ok && p.Succs[0] != p.Succs[1] {
 						// `if handler(msg) { ... }` where handler clears whenever it returns true
 						if call, ok := ifi.Cond.(*ssa.Call); ok && p.Succs[0] == b {
-							if cs := c.M.Callees(&call.Call); len(cs) == 1 && c.clearSummary(cs[0], ro, memo, depth+1) == "iftrue" {
+							// (a handler taken from a dispatch table: every handler of the table)
+							cs := c.M.Callees(&call.Call)
+							allIfTrue := len(cs) > 0
+							for _, callee := range cs {
+								if s := c.clearSummary(callee, ro, memo, depth+1); s != "iftrue" && s != "all" {
+									allIfTrue = false
+								}
+							}
+							if allIfTrue {
 								e = true
 							}
 						}
@@ -535,12 +550,14 @@ func (c *Ctx) mustDone(fn *ssa.Function, w wgRef, depth int) bool {
 		if x, ok := c.wgOfCall(ci.Common(), "Done"); ok && sameWG(x, w) {
 			return true
 		}
-		for _, callee := range c.M.Callees(ci.Common()) {
-			if len(c.M.Callees(ci.Common())) == 1 && c.mustDone(callee, w, depth+1) {
-				return true
+		// every function the call may run always calls Done
+		callees := c.M.Callees(ci.Common())
+		for _, callee := range callees {
+			if !c.mustDone(callee, w, depth+1) {
+				return false
 			}
 		}
-		return false
+		return len(callees) > 0
 	}
 	for _, b := range fn.Blocks {
 		for _, in := range b.Instrs {
